@@ -47,9 +47,11 @@ class Model:
     def __init__(self):
         self.inflight = {"M": [], "P1": [], "P2": []}  # (tag, queue time)
         self.started = True
+        self.real_owed = []  # entries the real instances owe to the wire: (instance, is StopOffer, optional)
 
     def _canon_(self, now):
-        return (tuple((d, tuple((tag, now - q) for tag, q in v)) for d, v in sorted(self.inflight.items())), self.started)
+        return (tuple((d, tuple((tag, now - q) for tag, q in v)) for d, v in sorted(self.inflight.items())), self.started,
+                tuple(self.real_owed))
 
     def free_tags(self, n):
         used = {tag for v in self.inflight.values() for tag, _ in v}
@@ -76,9 +78,15 @@ class Sys(e1.TimedSys):
         self.seam = RandomSeam(Choice())
         self.seam.__enter__()
         self.prot = make_sd(self.loop, timings(CYCLIC_OFFER_DELAY=0, REPETITIONS_MAX=0, SEND_COLLECTION_TIMEOUT=self.timeout))
-        self.inst = sd.ServiceInstance(cfg_.Service(self.realsid, 1, 1, 0), sd.ServerServiceListener(),
-                                       self.prot.announcer, self.prot.timings)
-        self.prot.announcer.announce_service(self.inst)
+        # two real instances: their offers share the multicast queue, and stopping both in one
+        # iteration makes stop() work on the same open collector twice
+        self.insts = []
+        for i in (1, 2):
+            inst = sd.ServiceInstance(cfg_.Service(self.realsid, i, 1, 0), sd.ServerServiceListener(),
+                                      self.prot.announcer, self.prot.timings)
+            self.insts.append(inst)
+            self.prot.announcer.announce_service(inst)
+        self.inst = self.insts[0]
         self.prot.announcer.start()
         self.loop.run_until(4 * C)
         self.prot.transport.sent.clear()
@@ -90,7 +98,7 @@ class Sys(e1.TimedSys):
         super().close()
 
     def roots(self):
-        return [self.prot, self.inst, self.model]
+        return [self.prot, self.model] + self.insts
 
     def actions(self):
         acts = []
@@ -113,9 +121,16 @@ class Sys(e1.TimedSys):
                 ann.queue_send(tagged_entry(self.tagsid, tag), remote=DEST[act[1]])
         elif act[0] == "ann-stop":
             m.started = False
+            # non-cyclic instances: every stop() queues exactly one StopOffer per instance
+            # an Offer whose start has not reached the wire yet may never have been queued (the task is
+            # cancelled before its first step when stop follows start within two iterations): optional
+            m.real_owed = [(i, z, True) if not z else (i, z, o) for i, z, o in m.real_owed]
+            m.real_owed += [(1, True, False), (2, True, False)]
             ann.stop()
         elif act[0] == "ann-start":
             m.started = True
+            # initial delay 0, no repetitions, non-cyclic: exactly one Offer per instance per start
+            m.real_owed += [(1, False, False), (2, False, False)]
             ann.start()
 
     def after_step(self, ev):
@@ -137,7 +152,21 @@ class Sys(e1.TimedSys):
                 self.viol("zero-timeout", "batched", f"{len(ents)} entries in one message with collection timeout 0")
             for e in ents:
                 if e[1] != self.tagsid:
-                    continue  # the real instance's own Offer / StopOffer
+                    # a real instance's own Offer / StopOffer: exactly once, too
+                    hit = next((x for x in m.real_owed if x[:2] == (e[2], e[4] == 0)), None) if e[1] == self.realsid else None
+                    if hit is not None:
+                        idx = m.real_owed.index(hit)
+                        del m.real_owed[idx]
+                        if e[4] == 0:
+                            # the StopOffer closes its run: an optional Offer queued before it that did not
+                            # precede it on the wire never comes
+                            m.real_owed = [x for j, x in enumerate(m.real_owed)
+                                           if not (j < idx and x[0] == e[2] and not x[1] and x[2])]
+                    else:
+                        self.viol("exactly-once", "real-entry-duplicate-or-unknown",
+                                  f"{'StopOffer' if e[4] == 0 else 'Offer'} of real instance {e[2]} on the wire to {dname} "
+                                  f"but none is owed (owed {m.real_owed})")
+                    continue
                 tag = e[2] - 1
                 q = m.inflight.get(dname, [])
                 if q and q[0][0] == tag:
@@ -164,6 +193,8 @@ class Sys(e1.TimedSys):
         if not self.loop.idle() or self.held:
             return
         now = self.loop.time()
+        if any(not x[2] for x in m.real_owed) and not self.loop.pending_timers():
+            self.viol("exactly-once", "real-entry-never-sent", f"entries of the real instances still owed with no timer pending: {m.real_owed}")
         for d, v in m.inflight.items():
             for tag, qt in v:
                 if now - qt >= self.timeout - r:
